@@ -60,7 +60,10 @@ PairViolated(r, s) == (IF Det(r, s) THEN {} ELSE {"Deterministic"})
                  \cup (IF InputOrder(r, s) THEN {} ELSE {"InputOrderIndependent"})
                  \cup (IF Unrelated(r, s) THEN {} ELSE {"UnrelatedInputIrrelevant"})
 
-(* C07 MergeIsUnionOrConflict: parts[i] and whole.defs are sequences of <<name, definition hash>> *)
+(* C07 MergeIsUnionOrConflict: parts[i] and whole.defs are sequences of <<name, definition hash>>; the hash is taken over  *)
+(* the JSON encoding of the object, i.e. over every declared attribute of the definition (hints, nullable, default,       *)
+(* constraints, comments, required, ... at any depth): a same-package redefinition that differs in any single one of them  *)
+(* (the corpus enumerates them one at a time, in both input orders) must be a conflict, never "first input wins".          *)
 DefSet(d) == {<<d[i][1], d[i][2]>> : i \in DOMAIN d}
 Functional(D) == \A x, y \in D : x[1] = y[1] => x[2] = y[2]
 MergeOK(r) == r.kind = "merge" =>
